@@ -27,7 +27,7 @@ class Ctx:
                     "correspondence": {}, "predicate": {}, "known_findings_replayed": [],
                     "distribution": {}}
         self.assumptions = []
-        self.findings = [f for f in load_findings() if f.get("property") == prop]
+        self.findings = [f for f in load_findings() if f.get("property") == prop or prop in f.get("properties", [])]
         self.broken = []              # broken obligations / correspondences (names)
         self._distinct = set()
         self.quick = tier == "quick"
